@@ -36,9 +36,10 @@ Pow(b, e) == IF e = 0 THEN 1 ELSE b * Pow(b, e - 1)
 SeqNo(n, i) == [j \in 1..n |-> PoolSeq[(((i - 1) \div Pow(K, j - 1)) % K) + 1]]
 RECURSIVE IdOf(_, _)
 IdOf(s, i) == IF i > Len(s) THEN "" ELSE ToString(s[i]) \o (IF i < Len(s) THEN "." ELSE "") \o IdOf(s, i + 1)
-\* every second pool file is written in the loose layout
+\* every second pool file is written in the loose layout, every third one (independently) with CRLF line terminators
 FilesOf(s) == [i \in 1..Len(s) |-> [name |-> "f" \o ToString(i) \o ".fga", header |-> Pool[s[i]].header, decls |-> Pool[s[i]].decls, conds |-> Pool[s[i]].conds,
-                                    loose |-> (s[i] + i) % 2 = 0]]
+                                    loose |-> (s[i] + i) % 2 = 0,
+                                    eol |-> IF (s[i] + (2 * i)) % 3 = 0 THEN "\r\n" ELSE "\n"]]
 RECURSIVE Off(_)
 Off(n) == IF n = 0 THEN 0 ELSE Off(n - 1) + Pow(K, n)
 LenFor(i) == CHOOSE n \in 1..MaxFiles : Off(n - 1) < i /\ i <= Off(n)
